@@ -47,10 +47,16 @@ class Drive:
         who = cut.get("who", 0)
         targets = self.sessions if who == "all" else [self.sessions[who]]
         idxs = range(len(self.sessions)) if who == "all" else [who]
-        if action == "server-close":
+        if action in ("server-close", "server-close-noread"):
             self.frozen = True
             for s in targets:
                 s.peer.freeze()
+                if action == "server-close-noread":
+                    # the peers keep every socket open but do not read a single byte any more
+                    if s.peer.writer is not None:
+                        s.peer.writer.transport.pause_reading()
+                    for r, w in s.peer.data_conns:
+                        w.transport.pause_reading()
         else:
             for j in idxs:
                 t = self.tasks[j]
@@ -86,8 +92,8 @@ class Drive:
             elif action == "data-rst":
                 for r, w in s.peer.data_conns:
                     w.transport.abort()
-            elif action == "server-close":
-                # the peer stays, idle; a script blocked in a data read keeps reading
+            elif action in ("server-close", "server-close-noread"):
+                # the peer stays, idle; a script blocked in a data read keeps reading (unless -noread)
                 pass
             elif action == "stall":
                 # complete silence, all sockets stay open, the peer keeps reading what arrives
@@ -98,7 +104,7 @@ class Drive:
                 pass
             else:
                 raise ValueError(action)
-        if action == "server-close":
+        if action in ("server-close", "server-close-noread"):
             self.close_task = asyncio.ensure_future(self.world.server.close())
         if action.endswith("+close"):
             # the session ends on its own and Server.close() lands j loop iterations later,
